@@ -213,7 +213,7 @@ CHECKS = {
              "helpers; simple_translate substitutes by mapping membership "
              "(not truthiness).  simple_translate's substitution regex and "
              "the translation function's own behaviour are not decided."
-             " Known finding: i18n:name blocks whose names differ only in '-' / '_' share a capture variable."),
+             " The capture variables of i18n:name blocks are distinct per registered name (ordinal in the variable's name, or an injective key function)."),
     "C12": dict(
         technique="structural rules on the error plumbing: insertion point of "
                   "token references, def-use of the source text across "
